@@ -327,12 +327,12 @@ class Assembler:
                 continue
             # ---- explicit renames (R5/R7)
             hit = False
-            if t.kind == IDENT:
+            if t.kind == IDENT or t.text == "&":
                 for seq, dst in renames:
                     n = len(seq)
                     if k + n <= b and [v.text(q) for q in range(k, k + n)] == seq and not (k > a and v.is_p(k - 1, "::")):
                         if not (n == 1 and (v.is_p(k - 1, ".") or v.is_p(k + 1, "::"))):
-                            edits.append(Edit(k, k + n, dst, "R7" if dst[:1].isupper() else "R5", f"{' '.join(seq)} -> {dst}"))
+                            edits.append(Edit(k, k + n, dst, "R16" if seq[0] == "&" else ("R7" if dst[:1].isupper() else "R5"), f"{' '.join(seq)} -> {dst}"))
                             k += n
                             hit = True
                             break
@@ -783,7 +783,12 @@ class Assembler:
         self.emit("\n" + self.pubify(text_out) + "\n")
         last = self.cur_line()
         self.funcs.setdefault(emit_name, []).append({"path": fs.path, "mode": mode, "first": first, "last": last, "props": fs.props,
-                                                     "src_line": v.t[it.kw].line, "file": fi.v.path.replace(REPO + "/", "")})
+                                                     "src_line": v.t[it.kw].line, "file": fi.v.path.replace(REPO + "/", ""),
+                                                     "bodyless": not it.body})
+        if mode == "home" and not it.body:
+            # a trait method declaration: the contract binds every implementation verified in this
+            # unit; implementations that are not extracted (e.g. ChiaDialect) are ASSUMED to meet it
+            self.assumptions.append(f"trait contract on {fs.path}: implementors outside the unit are assumed to satisfy it")
         if mode == "extern":
             self.assumptions.append(f"assumed contract on {fs.path} (external_body in unit {self.unit.name}; proved in home unit {fs.unit})")
         return fi, it
